@@ -54,6 +54,10 @@ class Scalar (α : Type) where
   /-- `a / b` and `a + b` on `f32` operands -/
   divF32 : α → α → α
   addF32 : α → α → α
+  /-- `f32::next_up` (the next representable `f32` above; NaN and `+∞` are fixed points) -/
+  nextUpF32 : α → α
+  /-- `f32::is_finite` -/
+  isFiniteF32 : α → Bool
 
 open Scalar
 
@@ -226,13 +230,23 @@ deriving DecidableEq, Repr
 def scoreBranch (p : α) : ScoreBranch :=
   if leb one p then .atMin else if leb p zero then .atMax else .search
 
+/-- `while score.is_finite() && self.scale(score) < x { score = score.next_up(); }` of `ScoreDistribution::score` (the repair of
+    the `f32` round trip): `unscale` rounds to `f32`, so its result may map back to a LOWER cell of the
+    table; the score is stepped up until it does not.  `fuel` bounds the steps of the model (the Rust loop
+    has no bound; one or two steps are ever needed, `bumpFuel` is far above that) -/
+def bump (d : Dist α) (x : Int) : Nat → α → α
+  | 0, s => s
+  | fuel + 1, s => if isFiniteF32 s && decide (d.scaleScore s < x) then bump d x fuel (nextUpF32 s) else s
+
+def bumpFuel : Nat := 64
+
 /-- `ScoreDistribution::score`, given the index `x` that `binary_search_by` returned (`Ok(x)` and
     `Err(x)` are treated alike by the Rust code) -/
 def score (d : Dist α) (p : α) (x : Nat) : α :=
   match scoreBranch p with
   | .atMin => d.unscale d.minScore
   | .atMax => d.unscale d.maxScore
-  | .search => d.unscale (Int.ofNat x)
+  | .search => d.bump (Int.ofNat x) bumpFuel (d.unscale (Int.ofNat x))
 
 /-- Contract of `self.sf.binary_search_by(|x| pvalue.partial_cmp(x).unwrap())` on the (non-increasing)
     table: any index holding exactly `p`, or else the insertion point — every entry before it is
@@ -270,6 +284,15 @@ instance : Scalar Float where
   toF32 x := x.toFloat32.toFloat
   divF32 a b := (a.toFloat32 / b.toFloat32).toFloat
   addF32 a b := (a.toFloat32 + b.toFloat32).toFloat
+  nextUpF32 a :=
+    let f := a.toFloat32
+    let b := f.toBits
+    let abs := b &&& 0x7FFFFFFF
+    if f.isNaN || b == 0x7F800000 then a
+    else if abs == 0 then (Float32.ofBits 1).toFloat
+    else if b == abs then (Float32.ofBits (b + 1)).toFloat
+    else (Float32.ofBits (b - 1)).toFloat
+  isFiniteF32 a := a.toFloat32.isFinite
 
 /-! ### exact instance (the theorems) -/
 
@@ -295,6 +318,8 @@ instance : Scalar Rat where
   toF32 x := x
   divF32 a b := a / b
   addF32 a b := a + b
+  nextUpF32 x := x      -- exact arithmetic: `unscale` does not round, the loop of `score` never steps
+  isFiniteF32 _ := true
 
 /-- `From<ScoringMatrix>` with the constant regenerated from dist.rs -/
 def buildDefault {α : Type} [Add α] [Sub α] [Mul α] [Div α] [Scalar α]
